@@ -563,6 +563,16 @@ func (env *SpecEnv) call(x *SCall) Val {
 			case "sameSlice":
 				a, b := env.eval(x.Args[0]), env.eval(x.Args[1])
 				return Val{T: sEq(a.T, b.T), S: sBool}
+			case "minval", "maxval":
+				v := env.nopol().eval(x.Args[0])
+				lo, hi, ok := ex.intRange(v.Go)
+				if !ok {
+					env.fail("%s: no finite range for this type", id.Name)
+				}
+				if id.Name == "minval" {
+					return Val{T: lo, S: sInt, Go: v.Go}
+				}
+				return Val{T: hi, S: sInt, Go: v.Go}
 			case "abs":
 				v := env.eval(x.Args[0])
 				return Val{T: fmt.Sprintf("(abs %s)", v.T), S: sInt, Go: v.Go}
